@@ -206,6 +206,7 @@ PROPS["C01"] = {
     "runs": [
         R("write-paths", ".", "root", ["ZzC18ClientWriteRTP", "ZzC18StreamWriteRTP", "ZzC18SessionWriteRTP"], params={"GOSTUB": 1}, extras=_EXTRAS,
           quick_params={"P": 12, "MAXPS": 36}, thorough_params={"P": 40, "MAXPS": 80, "NR": 3}),
+        R("udp-receive", ".", "root", ["ZzC01ClientUDPReceive"], params={"GOSTUB": 1}, extras=_EXTRAS, quick_params={"K": 4, "B": 4}, thorough_params={"K": 5, "B": 4, "P": 3}),
         R("fast-unmarshal", ".", "root", ["ZzC01FastUnmarshal"], params={"GOSTUB": 1}, extras=_EXTRAS, flags={"concoff": True},
           quick_params={"P": 20}, thorough_params={"P": 28}),
     ],
